@@ -56,6 +56,16 @@ Proof.
     rewrite (IH r Ha Hr). reflexivity.
 Qed.
 
+Lemma strip_prefix_app x r : strip_prefix x (x ++ r) = Some r.
+Proof. induction x as [|a x IH]; cbn; [reflexivity|]. rewrite Z.eqb_refl. exact IH. Qed.
+
+Lemma strip_prefix_split x : forall s r, strip_prefix x s = Some r -> s = x ++ r.
+Proof.
+  induction x as [|a x IH]; intros s r H; cbn in H; [injection H as <-; reflexivity|].
+  destruct s as [|b s]; [discriminate|]. destruct (a =? b) eqn:E; [|discriminate].
+  apply Z.eqb_eq in E. subst b. cbn. f_equal. apply IH, H.
+Qed.
+
 (* ---------- inversion of spec_step: one constructor per way a token is produced *)
 Ltac rew_hyps := repeat (match goal with H : ?x = _ |- context [?x] => rewrite H end).
 
@@ -108,19 +118,11 @@ Proof.
   all: try (match goal with H : mem_bytes ?a spec_keywords = ?b |- _ =>
               let G := fresh in pose proof (sh_word _ _ _ _ ltac:(eassumption) ltac:(eassumption)) as G; rewrite H in G; exact G end).
   all: try (apply sh_label; assumption).
+  all: try (match goal with H : strip_prefix [58; 58] ?b = Some ?rest |- _ =>
+              apply strip_prefix_split in H; cbn [app] in H; subst b end; apply sh_label; assumption).
 Qed.
 
 (* ---------- small list facts *)
-Lemma strip_prefix_app x r : strip_prefix x (x ++ r) = Some r.
-Proof. induction x as [|a x IH]; cbn; [reflexivity|]. rewrite Z.eqb_refl. exact IH. Qed.
-
-Lemma strip_prefix_split x : forall s r, strip_prefix x s = Some r -> s = x ++ r.
-Proof.
-  induction x as [|a x IH]; intros s r H; cbn in H; [injection H as <-; reflexivity|].
-  destruct s as [|b s]; [discriminate|]. destruct (a =? b) eqn:E; [|discriminate].
-  apply Z.eqb_eq in E. subst b. cbn. f_equal. apply IH, H.
-Qed.
-
 Lemma starts_with_app_l x r : starts_with x (x ++ r) = true.
 Proof. apply starts_with_app. exists r. reflexivity. Qed.
 
